@@ -142,6 +142,10 @@ pub struct Case {
     /// true: `TransientSource::from(child)`; false: `TransientSource::default()`
     pub from: bool,
     pub ops: Vec<Op>,
+    /// fd children only: every child of the case (not the sibling) is a Generic over ONE shared eventfd - the usual way
+    /// to swap a source for one with another mode or interest on the same descriptor
+    #[serde(default)]
+    pub same_fd: bool,
 }
 
 /// `avoid_f11`: while F11 is open nothing can be explored behind a child-requested Disable
@@ -184,8 +188,9 @@ fn case_strategy(max_len: usize, avoid_f11: bool) -> impl Strategy<Value = Case>
         prop_oneof![2 => Just(Kind::Fd), 1 => Just(Kind::Timer)],
         prop_oneof![5 => Just(true), 1 => Just(false)],
         proptest::collection::vec(op_strategy(avoid_f11), 0..=max_len),
+        prop::bool::weighted(0.3),
     )
-        .prop_map(|(emb, kind, from, ops)| Case { emb, kind, from, ops })
+        .prop_map(|(emb, kind, from, ops, same_fd)| Case { emb, kind, from, ops, same_fd: same_fd && kind == Kind::Fd })
 }
 
 // ------------------------------------------------------------------------------------------
@@ -224,10 +229,12 @@ struct ShInner {
 
 impl Drop for ShInner {
     fn drop(&mut self) {
-        for fd in &self.fds {
-            if *fd >= 0 {
-                kernel::close(*fd);
-            }
+        // (children may share an fd: close each one once)
+        let mut fds: Vec<RawFd> = self.fds.iter().copied().filter(|fd| *fd >= 0).collect();
+        fds.sort_unstable();
+        fds.dedup();
+        for fd in fds {
+            kernel::close(fd);
         }
     }
 }
@@ -235,6 +242,8 @@ impl Drop for ShInner {
 /// State shared (single thread) between the interpreter, the children and the parent.
 struct Sh {
     kind: Kind,
+    /// all non-sibling fd children share one eventfd
+    same_fd: bool,
     inner: RefCell<ShInner>,
 }
 
@@ -262,11 +271,17 @@ fn far() -> Instant {
 }
 
 fn new_child(sh: &Rc<Sh>, kind: Kind) -> Child {
+    new_child_shared(sh, kind, sh.same_fd)
+}
+
+fn new_child_shared(sh: &Rc<Sh>, kind: Kind, share: bool) -> Child {
     let mut g = sh.inner.borrow_mut();
     let id = g.fds.len();
     let (fd, inner) = match kind {
         Kind::Fd => {
-            let fd = kernel::eventfd_nonblock();
+            // the shared eventfd is the one of the first non-sibling fd child
+            let shared = if share { g.fds.iter().enumerate().find(|(i, fd)| **fd >= 0 && g.sibling != Some(*i)).map(|(_, fd)| *fd) } else { None };
+            let fd = shared.unwrap_or_else(kernel::eventfd_nonblock);
             assert!(fd >= 0, "eventfd failed (fd exhaustion?)");
             (fd, Inner::Fd(Generic::new(BorrowedRaw(fd), Interest::READ, Mode::Level)))
         }
@@ -717,6 +732,7 @@ impl World {
         let handle = el.handle();
         let sh = Rc::new(Sh {
             kind: case.kind,
+            same_fd: case.same_fd && case.kind == Kind::Fd,
             inner: RefCell::new(ShInner { trace: Vec::new(), fds: Vec::new(), script: Vec::new(), sibling: None, sib_act: None, child_act: None }),
         });
         let mut model = Model { kind: case.kind, parent_reg: false, cur: None, ch: Vec::new(), in_enable: false };
@@ -740,7 +756,7 @@ impl World {
             }
             Emb::Comp => {
                 // the sibling is always fd backed
-                let sibling = new_child(&sh, Kind::Fd);
+                let sibling = new_child_shared(&sh, Kind::Fd, false);
                 sh.inner.borrow_mut().sibling = Some(sibling.id);
                 model.child(sibling.id).sibling = true;
                 let p = Parent { transient, sibling, sh: sh.clone() };
@@ -970,7 +986,8 @@ impl World {
                         if self.model.ch[id].sibling || fds[id] < 0 {
                             continue;
                         }
-                        let exp = self.model.expected(id);
+                        // children over one shared fd: the fd is in the table exactly when one of them is expected there
+                        let exp = (0..self.model.ch.len()).any(|k| !self.model.ch[k].sibling && fds[k] == fds[id] && self.model.expected(k));
                         let present = table.iter().any(|e| e.tfd == fds[id]);
                         if present != exp {
                             return Some(v(
@@ -1085,6 +1102,10 @@ impl World {
                 }
                 let fd = self.sh.inner.borrow().fds[sib];
                 kernel::eventfd_write(fd, 1);
+                self.dispatch()
+            }
+            Op::FireOld if self.sh.same_fd => {
+                // the old children's fd is the current child's fd: nothing to ping separately
                 self.dispatch()
             }
             Op::FireOld => {
@@ -1415,7 +1436,7 @@ fn enumerate(ctx: &CheckCtx, emb: Emb, kind: Kind, from: bool, depth: usize, alp
     let bad: Mutex<Option<(Case, Violation)>> = Mutex::new(None);
     // work items: executed prefixes of length <= 2
     let mut items: Vec<Vec<Op>> = Vec::new();
-    let mut root = Case { emb, kind, from, ops: Vec::new() };
+    let mut root = Case { emb, kind, from, ops: Vec::new(), same_fd: false };
     let r0 = run_ops(&root, avoid, Some(alpha));
     stats.runs.fetch_add(1, Ordering::Relaxed);
     if let Some(x) = r0.viol {
@@ -1456,7 +1477,7 @@ fn enumerate(ctx: &CheckCtx, emb: Emb, kind: Kind, from: bool, depth: usize, alp
                     if i >= items.len() || stop.load(Ordering::Relaxed) {
                         break;
                     }
-                    let mut case = Case { emb, kind, from, ops: items[i].clone() };
+                    let mut case = Case { emb, kind, from, ops: items[i].clone(), same_fd: false };
                     // a harness panic must not be mistaken for anything else: let it propagate
                     dfs(&mut case, depth, alpha, avoid, &stats, &stop, deadline, &bad);
                 });
@@ -1578,7 +1599,8 @@ fn case_from_bytes(data: &[u8], max_len: usize, avoid_f11: bool) -> Case {
             _ => Op::Dispatch,
         });
     }
-    Case { emb, kind, from, ops }
+    let same_fd = kind == Kind::Fd && d.pct(30);
+    Case { emb, kind, from, ops, same_fd }
 }
 
 pub fn fuzz_subs(ctx: &CheckCtx) -> Vec<crate::fuzz::FuzzSub> {
